@@ -290,9 +290,52 @@ func finish(s *spec, tier string, parts []*PartResult, wall time.Duration) int {
 	return exit
 }
 
+// repoDir is the tree the checks verify: /repo, or $VERIF_REPO (a scratch
+// worktree carrying a candidate change) — in that case every file that differs
+// from /repo is mapped through the build overlay, so /repo itself stays
+// untouched while a change is being evaluated.
+func repoDir() string {
+	if r := os.Getenv("VERIF_REPO"); r != "" {
+		return filepath.Clean(r)
+	}
+	return "/repo"
+}
+
+func altRepoOverlay(alt string) map[string]string {
+	ov := map[string]string{}
+	filepath.Walk(alt, func(path string, info os.FileInfo, err error) error {
+		if err != nil {
+			return nil
+		}
+		if info.IsDir() {
+			if info.Name() == ".git" {
+				return filepath.SkipDir
+			}
+			return nil
+		}
+		if !strings.HasSuffix(path, ".go") && !strings.HasSuffix(path, "go.mod") {
+			return nil
+		}
+		rel, _ := filepath.Rel(alt, path)
+		orig := filepath.Join("/repo", rel)
+		a, _ := os.ReadFile(path)
+		b, err2 := os.ReadFile(orig)
+		if err2 != nil || string(a) != string(b) {
+			ov[orig] = path
+		}
+		return nil
+	})
+	return ov
+}
+
 func buildHarness(s *part, root, scratch string) string {
 	bin := filepath.Join(scratch, "harness.test")
 	args := []string{"test", "-c", "-vet=off", "-tags", "unit", "-o", bin}
+	overlay := map[string]string{}
+	repo := repoDir()
+	if repo != "/repo" {
+		overlay = altRepoOverlay(repo)
+	}
 	if len(s.Pkgs) > 0 {
 		gen := filepath.Join(root, "bin", "mcgen")
 		if _, err := os.Stat(gen); err != nil {
@@ -300,7 +343,7 @@ func buildHarness(s *part, root, scratch string) string {
 				fatal("build mcgen: %v\n%s", err, out)
 			}
 		}
-		gargs := []string{"-out", filepath.Join(scratch, "gen")}
+		gargs := []string{"-out", filepath.Join(scratch, "gen"), "-repo", repo}
 		for _, a := range s.GenArgs {
 			gargs = append(gargs, strings.ReplaceAll(a, "{dir}", filepath.Join(root, s.Harness)))
 		}
@@ -308,9 +351,28 @@ func buildHarness(s *part, root, scratch string) string {
 			gargs = append(gargs, kit+p)
 		}
 		if out, err := run(root, nil, gen, gargs...); err != nil {
-			fatal("mcgen failed (the instrumented copy could not be produced from /repo's working tree):\n%s", out)
+			fatal("mcgen failed (the instrumented copy could not be produced from the working tree):\n%s", out)
 		}
-		args = append(args, "-overlay", filepath.Join(scratch, "gen", "overlay.json"))
+		b, err := os.ReadFile(filepath.Join(scratch, "gen", "overlay.json"))
+		if err != nil {
+			fatal("%v", err)
+		}
+		var g struct{ Replace map[string]string }
+		if err := json.Unmarshal(b, &g); err != nil {
+			fatal("%v", err)
+		}
+		for k, v := range g.Replace {
+			if repo != "/repo" && strings.HasPrefix(k, repo+"/") {
+				k = "/repo/" + strings.TrimPrefix(k, repo+"/")
+			}
+			overlay[k] = v
+		}
+	}
+	if len(overlay) > 0 {
+		ob, _ := json.Marshal(map[string]any{"Replace": overlay})
+		of := filepath.Join(scratch, "overlay.json")
+		os.WriteFile(of, ob, 0o644)
+		args = append(args, "-overlay", of)
 	}
 	args = append(args, "./"+s.Harness)
 	if out, err := run(root, nil, "go", args...); err != nil {
